@@ -5,6 +5,7 @@ mod c15;
 mod c02;
 mod c03;
 mod c17;
+mod c18;
 mod util;
 
 fn main() {
@@ -21,6 +22,7 @@ fn main() {
         "c03" => c03::main(&args),
         "c17" => c17::main(&args),
         "c02" => c02::main(&args),
+        "c18" => c18::main(&args),
         other => {
             eprintln!("unknown property {other}");
             std::process::exit(2);
